@@ -649,10 +649,8 @@ fn cand_u(st: &State, j: usize, z: u32, neg: bool, e: &Expr) -> Option<bool> {
     }
 }
 fn in_cand(st: &State, j: usize, z: u32, neg: bool, e: &Expr) -> bool { cand_u(st, j, z, neg, e).is_some() }
-/// Some candidate zone of the query carries a uid (then zones without one are not hydrated).
-fn any_uid(st: &State, e: &Expr) -> bool {
-    st.segs.iter().enumerate().any(|(j, sg)| sg.zones.iter().any(|z| cand_u(st, j, z.0, false, e) == Some(true)))
-}
+// (former class `mixed-uid-zones-not-hydrated`: fixed in /repo by 4f45061 — a candidate zone
+// whose rows are missing is no longer excused by its uid flag; a recurrence is classified "-".)
 
 struct Answer { keys: BTreeSet<i64>, panicked: bool, ok: bool }
 
@@ -726,8 +724,6 @@ fn classify(st: &State, m: &Expr, got: &Answer, missing: &[i64], extra: &[i64]) 
         let locs = loc_of(st, k);
         let mut c = "-".to_string();
         for (loc, j, z) in locs {
-            // candidate zone that was never hydrated: it carries no uid while another candidate does
-            if is_missing && loc == Loc::Zone && cand_u(st, j, z, false, m) == Some(false) && any_uid(st, m) { c = "mixed-uid-zones-not-hydrated".into(); break; }
             // composite minimal case: NOT whose operand is right on its own
             if let Expr::Not(_) = m {
                 if is_missing && loc == Loc::Zone && !in_cand(st, j, z, false, m) { c = "not-over-mixed-zone".into(); break; }
@@ -786,7 +782,19 @@ fn witnesses() -> Vec<(SysCfg, Layout, Vec<Row>, Vec<Expr>)> {
         Expr::Cmp(4, Op::Eq, Lit::Str("2024-01-01".into(), false)),
     ];
     let cfg = SysCfg { event_per_zone: 2, fill_factor: 2, ..Default::default() };
-    vec![(cfg.clone(), Layout::Flushed, rows.clone(), qs.clone()), (cfg, Layout::Mem, rows, qs)]
+    // regression of the fixed finding C02-mixed-uid-zones-not-hydrated: the null in the second
+    // segment suppresses its .zsrf for `o`, so the SuRF leaf mixes pruner zones (no uid) of the
+    // first segment with metadata zones (uid) of the second
+    let mo = |k: i64, o: Val| Row { ctx: "c1".into(), vals: vec![Val::Int(k), Val::Int(0), Val::Int(5), Val::Int(2), Val::Str("aa".into()), Val::Bool(true), Val::Str("a".into()), Val::Int(T0), o] };
+    let rows_uid = vec![mo(1, Val::Int(0)), mo(2, Val::Int(0)), mo(3, Val::Int(3)), mo(4, Val::Null)];
+    let qs_uid = vec![
+        Expr::Cmp(8, Op::Lte, Lit::Int(3)),
+        Expr::Cmp(8, Op::Gte, Lit::Int(0)),
+        Expr::Or(Box::new(Expr::Cmp(8, Op::Lte, Lit::Int(3))), Box::new(Expr::Cmp(1, Op::Eq, Lit::Int(100)))),
+        Expr::Or(Box::new(Expr::Not(Box::new(Expr::Cmp(1, Op::Eq, Lit::Int(100))))), Box::new(Expr::Cmp(8, Op::Eq, Lit::Int(0)))),
+    ];
+    let cfg1 = SysCfg { event_per_zone: 1, fill_factor: 2, ..Default::default() };
+    vec![(cfg.clone(), Layout::Flushed, rows.clone(), qs.clone()), (cfg, Layout::Mem, rows, qs), (cfg1, Layout::Flushed, rows_uid, qs_uid)]
 }
 
 fn run_e2e(a: &Args) {
